@@ -55,6 +55,9 @@ def run(model, rep, tier):
             org = None
         origin[kk] = org
         shared = [k2 for k2 in local_of if k2 != kk and kk in local_of and local_of[k2] == local_of[kk]]
+        if kk in params and org is None and not shared:
+            rep.undecided("maketracerpreene: the array returned as '%s' (%s) has no single allocation this rule can follow" % (kk, unparse(v)[:40]))
+            continue
         ok = kk in params and org is not None and not shared
         rep.ob('keys-are-parameters', mod, v, "maketracerpreene returns {'%s': %s}" % (kk, unparse(v)), ok,
                '' if ok else ('key is not a parameter of preene2betafree' if kk not in params else
@@ -72,6 +75,10 @@ def run(model, rep, tier):
             'preT2': ('ones', 'len(self.om2_jn)'), 'eneT2': ('zeros', 'len(self.om2_jn)')}
     for name, (ctor, size) in want.items():
         n = origin.get(name)
+        if n is None:
+            if name in keys:
+                rep.undecided("maketracerpreene: the default of '%s' was not located" % name)
+            continue
         ok = n is not None and (dotted(n.func) or '').split('.')[-1] == ctor and bool(n.args) and unparse(n.args[0]) == size
         rep.ob('neutral-solute', mod, n or fn, "'%s' <- np.%s(%s)" % (name, ctor, size), ok,
                '' if ok else 'default is not the neutral element / has another size: %s' % (unparse(n) if n is not None else 'missing'),
@@ -120,7 +127,28 @@ def run(model, rep, tier):
                 rep.ob('host-copy', mod, st, "%s: %s (returned as '%s') <- %s" % (fam, unparse(t), key, unparse(v)), okc,
                        '' if okc else 'transition state %s does not receive the host %sT0 of its own jump type (array family %s, key %s)'
                        % (unparse(t), kind_t, af, key), engine='tables')
+    # the vectorised form: the returned array is the host array indexed by the recorded jump types, preT0[om1_jt]
+    from ._common import resolve_local
+    for k, v in zip(ret[0].value.keys, ret[0].value.values):
+        kk = k.value if isinstance(k, ast.Constant) else None
+        if kk not in ('preT1', 'eneT1', 'preT2', 'eneT2') or kk in filled:
+            continue
+        e = resolve_local(fn, v)
+        if isinstance(e, ast.Subscript):
+            host = unparse(resolve_local(fn, e.value))
+            idx = unparse(resolve_local(fn, e.slice))
+            fam_ix = {f for t_, f in families.TYPES.items() if t_ in idx}
+            host_ok = kk[:3] + 'T0' in host and ('eneT0' if kk[:3] == 'pre' else 'preT0') not in host
+            if len(fam_ix) == 1:
+                okc = host_ok and sorted(fam_ix)[0][-1] == kk[-1]
+                filled.add(kk)
+                rep.ob('host-copy', mod, v, "'%s' <- %s[%s]" % (kk, host[:40], idx[:50]), okc,
+                       '' if okc else 'transition state data %s are not the host %sT0 indexed by the jump types of their own family' % (kk, kk[:3]),
+                       engine='tables')
     missing = {'preT1', 'eneT1', 'preT2', 'eneT2'} - filled
+    if missing and nloops < 2:
+        rep.undecided('maketracerpreene: how %s are filled from the host data was not located' % sorted(missing))
+        return
     rep.ob('host-copy', mod, fn, 'every omega1 / omega2 transition array is filled from the host data: %s' % sorted(filled), not missing,
            '' if not missing else 'never filled from the omega0 data: %s' % sorted(missing), engine='tables')
     rep.floor('host-copy loops', nloops, 2)
